@@ -66,8 +66,21 @@ class Broker:
     def declare(self, q):
         self.queues.setdefault(q, [])
 
+    @staticmethod
+    def _exid_of(msg):
+        """Execution ARN an event message belongs to (None for requests/replies/poison)."""
+        try:
+            body = msg.body if isinstance(msg.body, str) else msg.body.decode("utf8")
+            doc = json.loads(body)
+            if isinstance(doc, dict) and isinstance(doc.get("context"), dict):
+                return (doc["context"].get("Execution") or {}).get("Id")
+        except Exception:
+            pass
+        return None
+
     def publish(self, rk, msg, producer=None):
-        self.oplog.append(("publish", rk, msg.message_id, msg.correlation_id))
+        msg._exid = self._exid_of(msg) if str(rk).startswith("ev") else None
+        self.oplog.append(("publish", rk, msg.message_id, msg.correlation_id, msg._exid))
         if rk not in self.queues:
             self.oplog.append(("unroutable", rk))
             self.tick()
@@ -77,8 +90,13 @@ class Broker:
         return True
 
     def broadcast(self, subject, body):
-        self.oplog.append(("broadcast", subject))
-        self.topic.append((subject, json.loads(body)))
+        doc = json.loads(body)
+        try:
+            exid = doc["detail"]["executionArn"]
+        except Exception:
+            exid = None
+        self.oplog.append(("broadcast", subject, exid))
+        self.topic.append((subject, doc))
         self.tick()
 
     def ack(self, tag):
@@ -86,7 +104,7 @@ class Broker:
             self.oplog.append(("double-ack", tag))
             return
         q, msg, c = self.unacked.pop(tag)
-        self.oplog.append(("ack", q, msg.message_id))
+        self.oplog.append(("ack", q, msg.message_id, getattr(msg, "_exid", None)))
         self.tick()
 
     def deliver(self, q, ci=0):
